@@ -21,6 +21,18 @@ if ! go build -tags verif -overlay "$ov" -o "$bin.$$" ./cmd/check 2> .build/buil
   echo "ENGINE-ERROR building the check binary against the current /repo tree failed"; head -50 .build/build.$id.err; rm -f "$bin.$$"; exit 2
 fi
 mv -f "$bin.$$" "$bin"
+# C15 only: the free-running race pass (plain -race build of cmd/racepass against /repo, no overlay)
+if [ "$id" = C15 ] && [ -z "${VERIF_NO_RACEPASS:-}" ]; then
+  rp=.build/racepass-$h-$(cat cmd/racepass/*.go | sha1sum | cut -c1-8)
+  if [ ! -x "$rp" ]; then
+    if ! go build -race -o "$rp.$$" ./cmd/racepass 2> .build/build.racepass.err; then
+      echo "ENGINE-ERROR building the race pass against the current /repo tree failed"; head -50 .build/build.racepass.err; rm -f "$rp.$$"; exit 2
+    fi
+    mv -f "$rp.$$" "$rp"
+  fi
+  ls -1t .build/racepass-* 2>/dev/null | tail -n +3 | xargs -r rm -f
+  export VERIF_RACEPASS=/verif/$rp
+fi
 # keep the build directory small: drop overlays and binaries other than the 3 most recent
 ls -1dt .build/ov/*/ 2>/dev/null | tail -n +4 | xargs -r rm -rf
 ls -1t .build/check-* 2>/dev/null | tail -n +4 | xargs -r rm -f
